@@ -241,7 +241,22 @@ func (ex *Exec) bindParams(fn *ssa.Function, args []Val) *env {
 			e.vars[p.Name()] = args[i]
 		}
 	}
+	ex.aliasVars(fn, e.vars)
 	return e
+}
+
+// aliasVars adds, for every variable of fn that was renamed since the contracts were written, the old name as well.
+func (ex *Exec) aliasVars(fn *ssa.Function, vars map[string]Val) {
+	if ex.w.renames == nil {
+		return
+	}
+	for old, now := range ex.w.renames[nameKey(fn)] {
+		if v, ok := vars[now]; ok {
+			if _, clash := vars[old]; !clash {
+				vars[old] = v
+			}
+		}
+	}
 }
 
 func (ex *Exec) applyContract(st *State, site string, fn *ssa.Function, ct *Contract, args []Val, k func(*State, Val)) {
@@ -971,6 +986,12 @@ func goroutineSummary(fv Val) (join []int, written []int) {
 						join = append(join, c)
 					}
 				}
+			case *ssa.Defer:
+				if bi, ok := x.Common().Value.(*ssa.Builtin); ok && bi.Name() == "close" {
+					if c, ok := cellOf(x.Common().Args[0]); ok {
+						join = append(join, c)
+					}
+				}
 			case *ssa.Send:
 				if c, ok := cellOf(x.Chan); ok {
 					join = append(join, c)
@@ -1205,7 +1226,7 @@ func (ex *Exec) callBySignature(st *State, site string, ct *Contract, sig *types
 // here (before those ghost updates), and the closure body is verified against its contract as a unit of its own.
 func (ex *Exec) spawnWithContract(st *State, in *ssa.Go, fv Val, gct *Contract) {
 	site := callSite(in)
-	name := shortFn(fv.Fn)
+	name := gct.short // the name the contracts know the goroutine's function by
 	vars := map[string]Val{}
 	for i, f := range fv.Fn.FreeVars {
 		b := fv.Binds[i]
@@ -1223,6 +1244,7 @@ func (ex *Exec) spawnWithContract(st *State, in *ssa.Go, fv Val, gct *Contract) 
 			vars[p.Name()] = st.get(args[i])
 		}
 	}
+	ex.aliasVars(fv.Fn, vars)
 	ex.assertAt(st, "go:"+name, vars)
 	e := &env{vars: vars}
 	for _, r := range gct.requires {
